@@ -264,10 +264,44 @@ def r2_sibling_builders(rule, root=None):
         rule.bad("tagged", "build_tagged_value maps tags to other values: %s" % bad, A.where(f))
     f = A.find_fn(SHAPES, "build_binary", root=root)
     t = txt(f["body"])
-    if ".set_nth_field(0,a).unwrap().set_nth_field(1,b)" in t and "leta=Tree::from_dynamic(&ctx,a,None)?;letb=Tree::from_dynamic(&ctx,b,None)?;" in t:
+    if _binary_fields(f) == {0: 0, 1: 1}:
         rule.ok("build_binary fills (a, b) into fields (0, 1) in order")
     else:
         rule.bad("build_binary", "build_binary must put its first argument into field 0 and its second into field 1", A.where(f))
+
+
+def _binary_fields(f):
+    """{field index: which of the two script arguments (0 / 1) is converted into it} for build_binary, however the
+    builder calls are strung together; None when a store cannot be traced to one argument"""
+    dyn = [A.binding_name(i["pat"]) for i in f["sig"]["inputs"] if "pat" in i and "Dynamic" in i["ty"]]
+    if len(dyn) != 2:
+        return None
+    lets = {}
+    for s_ in A.find(f["body"], "Let"):
+        n = A.binding_name(s_["pat"])
+        if n and s_.get("init") is not None:
+            lets.setdefault(n, []).append(s_["init"])
+    out = {}
+    for c in A.find(f["body"], "MethodCall"):
+        if c["method"] != "set_nth_field" or len(c["args"]) != 2:
+            continue
+        ix = A.strip(c["args"][0])
+        if ix.get("k") != "Lit" or ix.get("ty") != "int":
+            return None
+        v = A.strip(c["args"][1])
+        seen = 0
+        while v.get("k") == "Path" and len(v["segs"]) == 1 and len(lets.get(v["segs"][0], [])) == 1 and seen < 4:
+            v = A.strip(lets[v["segs"][0]][0])
+            seen += 1
+        while v.get("k") in ("Try", "Paren"):
+            v = A.strip(v["e"])
+        if v.get("k") != "Call" or (A.path_segs(v["func"]) or [""])[-1] != "from_dynamic" or "Tree" not in A.unparse(v["func"]) or len(v["args"]) < 2:
+            return None
+        src = A.ident(A.strip(v["args"][1]))
+        if src not in dyn or int(str(ix["v"])) in out:
+            return None
+        out[int(str(ix["v"]))] = dyn.index(src)
+    return out
 
 
 def _pat_matches_len(p, L):
